@@ -966,6 +966,7 @@ func (c *fnCtx) callEvents(call *ast.CallExpr) alts {
 		idx int
 		lit *ast.FuncLit
 		tgt *types.Func
+		own *Func // the instance a handed-through literal belongs to (nil: the current function)
 	}
 	var fargs []fnArg
 	for i, arg := range call.Args {
@@ -980,6 +981,22 @@ func (c *fnCtx) callEvents(call *ast.CallExpr) alts {
 			}
 			fargs = append(fargs, fnArg{idx: i, tgt: tgt})
 			continue
+		}
+		// a function-typed parameter of a looked-into helper handed on (store.Notify(id, notify)): what the
+		// helper's caller bound to it
+		if id, ok := ua.(*ast.Ident); ok {
+			if pv, isVar := info.Uses[id].(*types.Var); isVar {
+				if lit, tgt, owner := c.boundFuncArg(pv); owner != nil {
+					if lit != nil {
+						fargs = append(fargs, fnArg{idx: i, lit: lit, own: owner})
+						continue
+					}
+					if tgt != nil {
+						fargs = append(fargs, fnArg{idx: i, tgt: tgt})
+						continue
+					}
+				}
+			}
 		}
 		a = seq(a, c.exprEvents(arg))
 	}
@@ -1097,7 +1114,11 @@ func (c *fnCtx) callEvents(call *ast.CallExpr) alts {
 			}
 			continue
 		}
-		if fa.lit != nil {
+		if fa.lit != nil && fa.own != nil {
+			oc := *c
+			oc.fn = fa.own
+			inl = seq(inl, oc.inlineLitVia(fa.lit, callee, call, min, max))
+		} else if fa.lit != nil {
 			inl = seq(inl, c.inlineLitVia(fa.lit, callee, call, min, max))
 		} else {
 			inl = seq(inl, c.inlineTarget(fa.tgt, callee, call, min, max))
